@@ -18,7 +18,11 @@
 EXTENDS Tucan, Bliss, Json
 
 CONSTANTS MaxN,        \* largest number of atoms
-          Palette      \* set of colours <<z, mass, rad>> atoms may take
+          Palette,     \* set of colours <<z, mass, rad>> atoms may take
+          AnyLabelling \* FALSE: bliss answers with a canonical labelling (its contract).  TRUE ("downstream" instance): it may answer
+                       \* with ANY labelling -- then equal strings / equal canonical graphs for relabelled inputs are not expected, but
+                       \* everything downstream of the labelling (C03, C05, C12, C13: the string denotes the molecule, obeys the layout,
+                       \* nothing is lost) must hold for every labelled graph the serializer can ever be handed
 
 VARIABLES pc, M, pick
 mvars == <<vars, pc, M, pick>>
@@ -66,7 +70,7 @@ DoDerive ==
        /\ pick' = f
   /\ pc' = "canon1" /\ UNCHANGED M
 DoCanon(arg, ret, next) ==
-  /\ \E f \in CanonLabellings(WithPart(objs[arg])) :
+  /\ \E f \in (IF AnyLabelling THEN Perms(objs[arg].n) ELSE CanonLabellings(WithPart(objs[arg]))) :
        Step([op |-> "canon", arg |-> arg, ret |-> ret, g |-> SpecCanonicalize(objs[arg], f),
              before |-> objs[arg], after |-> objs[arg],
              parts |-> RefineTrace(objs[arg])])
@@ -104,6 +108,7 @@ EmitInputs == pc = "canon1" =>
 
 \* ---------------------------------------------------------------- what is checked
 AllHold == viol = {}                      \* no property clause, no harness fault, no refinement difference
+DownstreamHolds == \A c \in viol : SubSeq(c, 1, 4) \in {"C01:", "C04:"} \/ c = "C03:not-a-fixed-point-of-the-pipeline"
 FixedPoint == pc = "done" => /\ cls[6] = cls[1] /\ cls[4] = cls[1]        \* all three descriptions were recognised as one molecule
                              /\ Cardinality({p[2] : p \in sers}) = 1     \* ... and got one string
 Terminates == pc = "done" => Cardinality(sers) >= 1
